@@ -4,6 +4,8 @@
 #   none_params [p]            `p=None` parameters modelled as absent; given_params [p]: modelled as supplied
 #   as "<lean name>"           second reading of the same Python function under other presence assumptions
 #   kwargs_empty True          **kwargs modelled as empty
+#   loop_entry_obligation True a while loop whose body is the first to assign some locals is accepted; the translator
+#                              emits `<f>_loop<k>_entered` (the test holds in the start state), to be PROVED by the theorems
 ELL = {"ellipsoid": 2}
 ERR = "errtext = 'Invalid excentricity value in ellipsoid model.'"
 LOS0 = ["lat0", "lon0", "za0", "aa0"]
@@ -18,7 +20,8 @@ MODULE = ("Geodesy", "typhon/geodesy.py", [
     {"name": "geocentric2cart"},
     # `ellipsoid=None` -> WGS84 default is glue (checked by the harness); the model always receives (a, e)
     {"name": "geodetic2cart", "tuple_params": ELL},
-    {"name": "cart2geodetic", "tuple_params": ELL},
+    # N, h are first assigned inside the loop: the obligation cart2geodetic_loop1_entered is proved in C07.lean
+    {"name": "cart2geodetic", "tuple_params": ELL, "loop_entry_obligation": True},
     {"name": "geodetic2geocentric", "tuple_params": ELL, "kwargs_empty": True},
     {"name": "geocentric2geodetic", "tuple_params": ELL},
     # r=None: central angle in degrees;  r given: arc length
